@@ -128,15 +128,55 @@ func ruleNumZeroSign(c *Ctx) []Obligation {
 			}
 		}
 	}
+	// (c) the other comparisons of two numbers (Equal, …) go through the ordering, or neutralise the sign of a zero
+	// themselves: FromFloat, struct literals and arithmetic can all produce a negative zero, whatever ParseInt does
+	var sibs []Obligation
+	for _, fn := range c.Funcs {
+		if fn == less || fn.Signature.Recv() == nil || namedOf(fn.Signature.Recv().Type()) != num || fn.Parent() != nil {
+			continue
+		}
+		sig := fn.Signature
+		if sig.Params().Len() != 1 || namedOf(sig.Params().At(0).Type()) != num || sig.Results().Len() != 1 || !isBoolType(sig.Results().At(0).Type()) {
+			continue
+		}
+		con2 := fmt.Sprintf("%s: the sign of a zero magnitude does not take part in the comparison", c.FnName(fn))
+		cl := zeroSignCleared(fn, fValue, fNeg)
+		bad1 := ""
+		n := 0
+		eachInstr(fn, func(in ssa.Instruction) {
+			v, okv := in.(ssa.Value)
+			if !okv {
+				return
+			}
+			_, f, base := loadedField(v)
+			if f != fNeg {
+				return
+			}
+			n++
+			if t, has := cl[base]; !has || !dominates(t, in) {
+				if bad1 == "" {
+					bad1 = c.InstrPos(in)
+				}
+			}
+		})
+		switch {
+		case n == 0:
+			sibs = append(sibs, ok(R, con2, c.Pos(fn.Pos()), "reads no sign flag (it is defined through the ordering)"))
+		case bad1 == "":
+			sibs = append(sibs, ok(R, con2, c.Pos(fn.Pos()), fmt.Sprintf("clears the sign of a zero operand before its %d sign reads", n)))
+		default:
+			sibs = append(sibs, bad(R, con2, bad1, "the sign flag is compared as it stands: -0 (from FromFloat of a tiny negative float, from arithmetic, from a literal) differs from 0 here although neither is less than the other, so Equal and Less disagree and a range -0..0 prints and compares as two values"))
+		}
+	}
 	switch {
 	case lessOK && parseOK:
-		return []Obligation{ok(R, con, c.Pos(less.Pos()), fmt.Sprintf("Less clears the sign of a zero operand before its %d sign reads; ParseInt does not record the sign of a zero", reads))}
+		return append(sibs, ok(R, con, c.Pos(less.Pos()), fmt.Sprintf("Less clears the sign of a zero operand before its %d sign reads; ParseInt does not record the sign of a zero", reads)))
 	case lessOK:
-		return []Obligation{ok(R, con, c.Pos(less.Pos()), fmt.Sprintf("Less clears the sign of a zero operand before its %d sign reads", reads))}
+		return append(sibs, ok(R, con, c.Pos(less.Pos()), fmt.Sprintf("Less clears the sign of a zero operand before its %d sign reads", reads)))
 	case parseOK:
-		return []Obligation{ok(R, con, c.Pos(parse.Pos()), "ParseInt does not record the sign of a zero (the only producer of a Number from a signed integer text; addQuantum: NUM.NEGZERO)")}
+		return append(sibs, ok(R, con, c.Pos(parse.Pos()), "ParseInt does not record the sign of a zero (the only producer of a Number from a signed integer text; addQuantum: NUM.NEGZERO)"))
 	}
-	return []Obligation{bad(R, con, c.Pos(less.Pos()), "neither the ordering nor the integer parser neutralises the sign of a zero: range \"-0..10\" is refused on an unsigned type, \"0..-0\" is out of order ("+why+")")}
+	return append(sibs, bad(R, con, c.Pos(less.Pos()), "neither the ordering nor the integer parser neutralises the sign of a zero: range \"-0..10\" is refused on an unsigned type, \"0..-0\" is out of order ("+why+")"))
 }
 
 // ---------------------------------------------------------------- NUM.FRACBOUND
@@ -747,6 +787,11 @@ func operandClosure(v ssa.Value, visit func(ssa.Value)) {
 		}
 		in, ok := x.(ssa.Instruction)
 		if !ok {
+			// a private helper's parameter is the argument at its call site, a private closure's captured
+			// variable the cell of the function that makes it (inline.go)
+			if r := resolveArg(x); r != x {
+				walk(r)
+			}
 			return
 		}
 		for _, op := range in.Operands(nil) {
@@ -903,7 +948,7 @@ func ruleAugTargetKind(c *Ctx) []Obligation {
 		if len(ci.Common().Args) == 0 {
 			continue
 		}
-		target := ci.Common().Args[0]
+		target := resolveArg(ci.Common().Args[0])
 		// what holds at the merge: the dominating conditions, and — where a condition is a call of one of the repo's
 		// own predicates on the target (`if !target.holdsChildren()`) — what that predicate's result implies
 		type fact struct {
@@ -1063,7 +1108,7 @@ func ruleChoiceAfterAug(c *Ctx) []Obligation {
 	}
 	// Augment itself may insert the cases on the target
 	selfFix := c.Reach([]*ssa.Function{aug}, nil)[fix]
-	after := func(a, f ssa.Instruction) bool {
+	after1 := func(a, f ssa.Instruction) bool {
 		if a.Parent() != f.Parent() {
 			return false
 		}
@@ -1071,6 +1116,28 @@ func ruleChoiceAfterAug(c *Ctx) []Obligation {
 			return dominates(a, f)
 		}
 		return blockReaches(a.Block(), f.Block(), nil) && !blockReaches(f.Block(), a.Block(), nil)
+	}
+	// the two calls as Process sees them, when one of them sits in a private helper (inline.go)
+	after := func(a, f ssa.Instruction) bool {
+		if after1(a, f) {
+			return true
+		}
+		as, fs := liftAll(a, proc, 0), liftAll(f, proc, 0)
+		if len(as) == 0 || len(fs) == 0 {
+			return false
+		}
+		for _, la := range as {
+			some := false
+			for _, lf := range fs {
+				if la != lf && after1(la, lf) {
+					some = true
+				}
+			}
+			if !some {
+				return false
+			}
+		}
+		return true
 	}
 	fixes := c.callsToDeep(proc, fix)
 	var obs []Obligation
